@@ -55,6 +55,9 @@ pub struct C16Job {
     pub algo: Algo,
     pub capacity: usize,
     pub reenter: Reenter,
+    /// No event listener (and no pipe): some paths only hand garbage out of the lock when one exists.
+    #[serde(default)]
+    pub no_listener: bool,
 }
 
 pub struct C16Prop;
@@ -127,8 +130,9 @@ fn run_seq(job: &C16Job, ops: &[COp], res: &mut ShardResult) -> Vec<(String, Str
         capacity: job.capacity,
         shards: 1,
         hash_table: vec![],
-        pipe: true,
+        pipe: !job.no_listener,
         predict: false,
+        no_listener: job.no_listener,
     };
     let rec = Arc::new(Recorder::default());
     let hasher = VHash::default();
@@ -288,7 +292,16 @@ fn jobs(tier: Tier) -> Vec<C16Job> {
                     algo,
                     capacity: *capacity,
                     reenter,
+                    no_listener: false,
                 });
+                if reenter == Reenter::Get {
+                    v.push(C16Job {
+                        algo,
+                        capacity: *capacity,
+                        reenter,
+                        no_listener: true,
+                    });
+                }
             }
         }
     }
@@ -338,7 +351,7 @@ impl Prop for C16Prop {
                         }
                         let c = run_seq(job, &ops, &mut res);
                         res.add("executions", 1);
-                        res.fp(vcore::fingerprint(&(format!("{:?}", job.algo), job.reenter as u8, format!("{ops:?}"))));
+                        res.fp(vcore::fingerprint(&(format!("{:?}", job.algo), job.reenter as u8, job.no_listener, format!("{ops:?}"))));
                         if res.samples.len() < 2 && len == d {
                             res.sample(json!({"engine": "S", "job": job, "ops": ops}), 2);
                         }
@@ -400,7 +413,7 @@ impl Prop for C16Prop {
     }
 
     fn rule(&self) -> String {
-        "Engine S with the lock facade as monitor: every sequence of up to 3 (quick) / 4 (thorough) operations over {insert, insert-and-hold, oversize insert, filter-rejected (disk-only) insert, get, get-and-hold, remove, touch, clear, resize, evict_all, drop handle, get_or_fetch ok / failing / superseded by an insert} on a single-shard cache with a pipe, for five algorithms x re-entry mode {lookup, insert, remove}. The listener, weighter, filter and the Drop of the key and value types check plshim::held_by_this_thread() == 0 (the facade counts every Mutex/RwLock of the cache, including the in-flight table) and then call back into the same cache (depth 1). Oracle: no callback ever runs with a cache lock held; no operation panics with a self-deadlock (the facade reports re-acquisition of a held lock instead of hanging); everything completes.".into()
+        "Engine S with the lock facade as monitor: every sequence of up to 3 (quick) / 4 (thorough) operations over {insert, insert-and-hold, oversize insert, filter-rejected (disk-only) insert, get, get-and-hold, remove, touch, clear, resize, evict_all, drop handle, get_or_fetch ok / failing / superseded by an insert} on a single-shard cache with a pipe, for five algorithms x re-entry mode {lookup, insert, remove}, with an event listener and pipe configured and (re-entry by lookup) without either. The listener, weighter, filter and the Drop of the key and value types check plshim::held_by_this_thread() == 0 (the facade counts every Mutex/RwLock of the cache, including the in-flight table) and then call back into the same cache (depth 1). Oracle: no callback ever runs with a cache lock held; no operation panics with a self-deadlock (the facade reports re-acquisition of a held lock instead of hanging); everything completes.".into()
     }
 
     fn assumptions(&self) -> Vec<String> {
